@@ -69,6 +69,11 @@ def judge(hist, lib=LIB, classes=None):
             edits.append(list(edits[st[1]]))
         elif st[0] == "flatten":
             flatten_(trees[st[1]], ast_.ComponentRef.from_string(st[2]))
+        elif st[0] == "carry":
+            # carry a looked-up (class-level) copy of an unedited class of tree src over into tree dst, replacing dst's equal class
+            src, dst, target = st[1], st[2], st[3]
+            c = trees[src].find_class(ast_.ComponentRef.from_string(target), copy=True)
+            get_class(trees[dst], target.rsplit(".", 1)[0]).add_class(c)
         else:
             edit(trees[st[1]], st[2], k)
             edits[st[1]].append((st[2], k))
@@ -110,6 +115,10 @@ def histories(tier):
         out.append([("copy", 0), ("edit", 1, tgt), ("copy", 1), ("edit", 2, tgt)])
         out.append([("edit", 0, tgt), ("copy", 0), ("copy", 1), ("edit", 1, tgt)])
         out.append([("copy", 0), ("copy", 1), ("edit", 2, tgt), ("edit", 0, "L.Leaf")])
+    for tgt in ("L.Base", "L.Leaf"):
+        out.append([("copy", 0), ("carry", 0, 1, tgt)])
+        out.append([("copy", 0), ("copy", 1), ("carry", 1, 2, tgt), ("edit", 2, tgt)])
+        out.append([("copy", 0), ("carry", 1, 0, tgt), ("edit", 0, "L.f")])
     # look-ups made while flattening on the tree itself (memoised imports) must not make later copies share classes
     for tgt in ("Q.Part", "P.User"):
         out.append(("LIB2", [("flatten", 0, "P.User"), ("copy", 0), ("edit", 1, tgt)]))
@@ -136,7 +145,7 @@ def main():
                 break
     if payload.get("mode") == "bounded":
         print(json.dumps({"performed": True, "cases": n, "distinct_nontrivial": n, "failures": failures,
-                          "rule": "histories of deepcopy (incl. copies of copies) and add_symbol/add_equation edits on a model, a base class and a function of a real library; every tree is flattened (4 classes that reach the edited ones through components, extends and calls) and compared with a fresh parse carrying exactly that tree's edits; a second library with an unqualified import (importing package listed first) is flattened ON the tree before it is copied; parents must lie inside the tree",
+                          "rule": "histories of deepcopy (incl. copies of copies), add_symbol/add_equation edits and carrying a looked-up class copy from one tree into another on a model, a base class and a function of a real library; every tree is flattened (4 classes that reach the edited ones through components, extends and calls) and compared with a fresh parse carrying exactly that tree's edits; a second library with an unqualified import (importing package listed first) is flattened ON the tree before it is copied; parents must lie inside the tree",
                           "bound": "%d histories" % n}))
     else:
         f = failures[0] if failures else None
